@@ -15,7 +15,7 @@ From PNA Require Import Base Crc32 Name Codec Chunk Archive Entry Flatten Cbc Ct
   BaseFacts ChunkFacts ArchiveFacts EntryFacts FlattenFacts CbcFacts CtrFacts StreamFacts PipelineFacts.
 From PNA Require Import Wf WfFacts WfWriterFacts WfAgreeFacts WfSplitFacts.
 From PNA Require Split SplitFacts.
-From PNA Require Import Aes Camellia AesFacts CamelliaFacts PipelineRealFacts.
+From PNA Require Import Aes Camellia AesFacts CamelliaFacts PipelineRealFacts PipelineRun.
 Require Import ZArith ZifyN ZifyNat ZifyBool Lia.
 Open Scope N_scope.
 
@@ -664,19 +664,19 @@ Proof.
 Qed.
 
 (* ---- solid entries ------------------------------------------------------------------------------------- *)
-Definition sacc := (option shed * option bytes * list bytes * list chunk)%type.
+Definition soacc := (option shed * option bytes * list bytes * list chunk)%type.
 Definition sstop (c : chunk) : bool := ty_is c SEND.
-Definition sstep (c : chunk) (s : sacc) : res sacc :=
+Definition sstep (c : chunk) (s : soacc) : res soacc :=
   let '(i, p, d, x) := s in
   if ty_is c SHED then do h <- shed_of_bytes (cdata c); Ok (Some h, p, d, x)
   else if ty_is c SDAT then Ok (i, p, d ++ [cdata c], x)
   else if ty_is c PHSF then do u <- utf8_string (cdata c); Ok (i, Some u, d, x)
   else Ok (i, p, d, x ++ [c]).
-Definition srel (s s' : sacc) : Prop :=
+Definition srel (s s' : soacc) : Prop :=
   let '(i, p, d, x) := s in let '(i', p', d', x') := s' in i = i' /\ p = p' /\ concat d = concat d' /\ x = x'.
 
 Lemma parse_solid_loop_gloop : forall cs i p d x,
-  parse_solid_loop cs i p d x = gloop sacc sstop sstep cs (i, p, d, x).
+  parse_solid_loop cs i p d x = gloop soacc sstop sstep cs (i, p, d, x).
 Proof.
   induction cs as [|c r IH]; intros i p d x; [reflexivity|]. cbn [parse_solid_loop gloop]. unfold sstop, sstep.
   destruct (ty_is c SEND); [reflexivity|].
@@ -715,7 +715,7 @@ Theorem parse_solid_loop_recut x y i p d d' e : recut SDAT x y -> concat d = con
   res_rel srel (parse_solid_loop x i p d e) (parse_solid_loop y i p d' e).
 Proof.
   intros Hr Hd. rewrite !parse_solid_loop_gloop.
-  apply (gloop_recut sacc sstop sstep srel SDAT (fun b s => let '(i, p, d, x) := s in (i, p, d ++ [b], x))); try assumption.
+  apply (gloop_recut soacc sstop sstep srel SDAT (fun b s => let '(i, p, d, x) := s in (i, p, d ++ [b], x))); try assumption.
   - exact srel_refl.
   - exact srel_sym.
   - exact srel_trans.
@@ -743,7 +743,7 @@ Proof.
   destruct (parse_solid_loop (c :: r) None None [] []) as [[[[i p] d] x]| |]; reflexivity.
 Qed.
 
-Lemma finish_solid_rel (a a' : sacc) : srel a a' ->
+Lemma finish_solid_rel (a a' : soacc) : srel a a' ->
   res_rel solid_same
     (let '(info, phsf, data, extra) := a in
      match info with None => Err InvalidData | Some h => Ok {| so_hdr := h; so_phsf := phsf; so_data := data; so_extra := extra |} end)
@@ -1117,6 +1117,34 @@ Theorem recut_of_written_real pw jobs ys :
                  decode_normal real_E_of real_D_of decompress verify n pw rb = Ok (sp_content (j_spec j))) jobs es.
 Proof. apply (recut_of_written real_E_of real_D_of compress decompress verify real_D_len real_DE real_E_len compress_law compress_det). Qed.
 End Real.
+
+(* the read sequence the case interpreter of the pipeline area uses (PipelineRun.reads_for: the caller's read-until-zero
+   loop with cyclic buffer sizes, as the finite list of reads it amounts to) drains: the decode cases of the
+   correspondence run are instances of the theorems above *)
+Lemma cycle_to_spec cyc : cyc <> [] -> Forall (fun n => 0 < n) cyc -> forall fuel cur, Forall (fun n => 0 < n) cur ->
+  length (cycle_to fuel cur cyc) = fuel /\ Forall (fun n => 0 < n) (cycle_to fuel cur cyc).
+Proof.
+  intros Hne Hc. induction fuel as [|f IH]; intros cur Hcur; [split; [reflexivity|constructor]|].
+  cbn [cycle_to]. destruct cur as [|s r].
+  - destruct cyc as [|s r]; [congruence|]. inversion Hc as [|? ? Hs Hr]; subst.
+    destruct (IH r Hr) as [A B]. split; [cbn [length]; rewrite A; reflexivity|constructor; assumption].
+  - inversion Hcur as [|? ? Hs Hr]; subst.
+    destruct (IH r Hr) as [A B]. split; [cbn [length]; rewrite A; reflexivity|constructor; assumption].
+Qed.
+Theorem reads_for_drains sizes data : sizes <> [] -> Forall (fun n => 0 < n) sizes -> drains data (reads_for sizes data).
+Proof.
+  intros Hne Hp. unfold reads_for. destruct (cycle_to_spec sizes Hne Hp (S (S (length (concat data)))) sizes Hp) as [A B].
+  split; [exact B|]. unfold len. rewrite A. lia.
+Qed.
+
+(* hence what the case interpreter prints as the content of an entry does not depend on the framing of its data nor on
+   the buffer sizes of the case *)
+Theorem content_of_framing_indep vt dt s1 s2 e1 e2 : normal_same e1 e2 ->
+  s1 <> [] -> Forall (fun n => 0 < n) s1 -> s2 <> [] -> Forall (fun n => 0 < n) s2 ->
+  content_of vt dt s1 e1 = content_of vt dt s2 e2.
+Proof.
+  intros Hs N1 P1 N2 P2. unfold content_of. apply normal_same_decode; [exact Hs| |]; apply reads_for_drains; assumption.
+Qed.
 
 (* ================================================================================================= *)
 (* 7. the premises are satisfiable: a 33-byte file, AES-256-CBC, store; its 64 data bytes (IV + 48)      *)
